@@ -1,0 +1,212 @@
+//! Verification hooks (compiled only with `--cfg purl_verif`).
+//!
+//! Every call of `GenericPurl::from_str`, `GenericPurlBuilder::build` and `Display::fmt` appends one
+//! JSON line to the file named by the environment variable `PURL_VERIF_TRACE`, so that executions of
+//! the ordinary test suite can be checked against the TLA+ specification in /verif. Strings are
+//! written as arrays of Unicode scalar values. Without the cfg flag this module does not exist.
+
+use std::cell::Cell;
+use std::fmt::Write as _;
+use std::fs::{File, OpenOptions};
+use std::io::Write as _;
+use std::panic::{catch_unwind, AssertUnwindSafe};
+use std::sync::{Mutex, OnceLock};
+
+use crate::{GenericPurl, PurlParts, PurlShape};
+
+thread_local! {
+    static IN_PARSE: Cell<bool> = const { Cell::new(false) };
+    static IN_BUILD: Cell<bool> = const { Cell::new(false) };
+    static IN_FMT: Cell<bool> = const { Cell::new(false) };
+}
+
+/// Which hook a re-entrancy flag belongs to.
+#[derive(Clone, Copy)]
+pub(crate) enum Hook {
+    Parse,
+    Build,
+    Fmt,
+}
+
+fn flag(h: Hook) -> &'static std::thread::LocalKey<Cell<bool>> {
+    match h {
+        Hook::Parse => &IN_PARSE,
+        Hook::Build => &IN_BUILD,
+        Hook::Fmt => &IN_FMT,
+    }
+}
+
+pub(crate) fn active(h: Hook) -> bool {
+    flag(h).with(|c| c.get())
+}
+
+struct Reset(Hook);
+impl Drop for Reset {
+    fn drop(&mut self) {
+        flag(self.0).with(|c| c.set(false));
+    }
+}
+
+/// Run `f` with the hook's re-entrancy flag set (reset even if `f` panics).
+pub(crate) fn inside<R>(h: Hook, f: impl FnOnce() -> R) -> R {
+    flag(h).with(|c| c.set(true));
+    let _reset = Reset(h);
+    f()
+}
+
+fn sink() -> Option<&'static Mutex<File>> {
+    static SINK: OnceLock<Option<Mutex<File>>> = OnceLock::new();
+    SINK.get_or_init(|| {
+        let path = std::env::var_os("PURL_VERIF_TRACE")?;
+        OpenOptions::new().create(true).append(true).open(path).ok().map(Mutex::new)
+    })
+    .as_ref()
+}
+
+fn emit(line: String) {
+    if let Some(m) = sink() {
+        if let Ok(mut f) = m.lock() {
+            let _ = writeln!(f, "{}", line);
+        }
+    }
+}
+
+fn cps(s: &str) -> String {
+    let mut out = String::from("[");
+    for (i, c) in s.chars().enumerate() {
+        if i > 0 {
+            out.push(',');
+        }
+        let _ = write!(out, "{}", c as u32);
+    }
+    out.push(']');
+    out
+}
+
+fn parts_json(p: &PurlParts) -> String {
+    let mut q = String::from("[");
+    for (i, (k, v)) in p.qualifiers.iter().enumerate() {
+        if i > 0 {
+            q.push(',');
+        }
+        let _ = write!(q, "[{},{}]", cps(k.as_str()), cps(v));
+    }
+    q.push(']');
+    format!(
+        "{{\"ns\":{},\"name\":{},\"ver\":{},\"quals\":{},\"sub\":{}}}",
+        cps(&p.namespace),
+        cps(&p.name),
+        cps(&p.version),
+        q,
+        cps(&p.subpath)
+    )
+}
+
+fn shape_kind<T>() -> &'static str {
+    let n = std::any::type_name::<T>();
+    if n.ends_with("PackageType") && n.starts_with("purl::") {
+        "typed"
+    } else if n == "alloc::string::String" || n.starts_with("smartstring::") || n.starts_with("alloc::borrow::Cow<") {
+        "generic"
+    } else {
+        "other"
+    }
+}
+
+/// `char::to_lowercase` of the non-ASCII characters of the strings (raw and behind percent-escapes).
+fn lc_table(strings: &[&str]) -> String {
+    let mut seen = std::collections::BTreeSet::new();
+    for s in strings {
+        seen.extend(s.chars());
+        let decoded: Vec<u8> = percent_encoding::percent_decode_str(s).collect();
+        seen.extend(String::from_utf8_lossy(&decoded).chars());
+    }
+    let mut out = String::from("[");
+    let mut first = true;
+    for c in seen {
+        if c.is_ascii() {
+            continue;
+        }
+        let lower: String = c.to_lowercase().collect();
+        if lower.chars().eq(std::iter::once(c)) {
+            continue;
+        }
+        if !first {
+            out.push(',');
+        }
+        first = false;
+        let _ = write!(out, "[{},{}]", c as u32, cps(&lower));
+    }
+    out.push(']');
+    out
+}
+
+fn value_json<T: PurlShape>(p: &GenericPurl<T>) -> String {
+    let ty = p.package_type().package_type().into_owned();
+    let mut parts = parts_json(&p.parts);
+    parts.insert_str(1, &format!("\"type\":{},", cps(&ty)));
+    let printed = catch_unwind(AssertUnwindSafe(|| inside(Hook::Fmt, || p.to_string())));
+    match printed {
+        Ok(s) => format!("{{\"ok\":true,\"v\":{},\"str\":{}}}", parts, cps(&s)),
+        Err(_) => format!("{{\"ok\":true,\"v\":{},\"str\":[],\"display_panic\":true}}", parts),
+    }
+}
+
+fn outcome_json<T: PurlShape, E>(r: &Result<GenericPurl<T>, E>) -> String {
+    match r {
+        Ok(p) => value_json(p),
+        Err(_) => "{\"ok\":false}".to_owned(),
+    }
+}
+
+pub(crate) fn log_parse<T: PurlShape, E>(s: &str, r: &Result<GenericPurl<T>, E>) {
+    if sink().is_none() {
+        return;
+    }
+    emit(format!(
+        "{{\"ev\":\"hparse\",\"sh\":\"{}\",\"s\":{},\"out\":{},\"lc\":{}}}",
+        shape_kind::<T>(),
+        cps(s),
+        outcome_json(r),
+        lc_table(&[s])
+    ));
+}
+
+/// The builder as it was when `build()` was entered.
+pub(crate) fn builder_snapshot<T: PurlShape>(package_type: &T, parts: &PurlParts) -> (String, PurlParts) {
+    (package_type.package_type().into_owned(), parts.clone())
+}
+
+pub(crate) fn log_build<T: PurlShape, E>(before: &(String, PurlParts), r: &Result<GenericPurl<T>, E>) {
+    if sink().is_none() {
+        return;
+    }
+    let mut strings: Vec<&str> = vec![&before.0, &before.1.namespace, &before.1.name, &before.1.version, &before.1.subpath];
+    for (k, v) in before.1.qualifiers.iter() {
+        strings.push(k.as_str());
+        strings.push(v);
+    }
+    emit(format!(
+        "{{\"ev\":\"hbuild\",\"sh\":\"{}\",\"st\":{},\"parts\":{},\"out\":{},\"lc\":{}}}",
+        shape_kind::<T>(),
+        cps(&before.0),
+        parts_json(&before.1),
+        outcome_json(r),
+        lc_table(&strings)
+    ));
+}
+
+pub(crate) fn log_fmt<T: PurlShape>(p: &GenericPurl<T>, s: &str) {
+    if sink().is_none() {
+        return;
+    }
+    let ty = p.package_type().package_type().into_owned();
+    let mut parts = parts_json(&p.parts);
+    parts.insert_str(1, &format!("\"type\":{},", cps(&ty)));
+    emit(format!(
+        "{{\"ev\":\"value\",\"inst\":\"hook\",\"origin\":\"hook\",\"generic\":{},\"v\":{},\"str\":{}}}",
+        shape_kind::<T>() != "other",
+        parts,
+        cps(s)
+    ));
+}
